@@ -29,6 +29,16 @@ def run(rep, tier, seed, replay):
                 for body in (c0 + d0, d0 + c0, c0 + d0 + c0, d0 + c0 + d0):
                     mixed += ["(?i)" + body, "(?-i)" + body, "x/(?i)" + body, "{(?i)%s,(?-i)%s}" % (body, body), "<(?i)%s:2>" % body]
         exprs += [e for e in mixed if e not in set(exprs)]
+    if replay is None:
+        # alternatives that differ ONLY in letter case (or by a case mapping): each is invariant text, together they are two paths
+        pairs2 = [("a", "A"), ("readme", "README"), ("ab", "aB"), ("é", "É"), ("ǆ", "ǅ"), ("ǆ", "Ǆ"), ("s", "ſ"), ("k", "K"), ("σ", "ς"), ("ß", "ẞ"), ("x.y", "X.Y"), ("i", "İ")]
+        caseonly = []
+        for a0, b0 in pairs2:
+            caseonly += ["{%s,%s}" % (a0, b0), "{%s,%s}" % (b0, a0), "{%s,%s}.md" % (a0, b0), "x/{%s,%s}/y" % (a0, b0), "<{%s,%s}:2>" % (a0, b0), "{%s,%s,%s}" % (a0, a0, b0),
+                         "{{%s},%s}" % (a0, b0), "{<%s:1>,%s}" % (a0, b0), "{%s/c,%s/c}" % (a0, b0), "(?-i){%s,%s}" % (a0, b0), "{(?-i)%s,(?-i)%s}" % (a0, b0)]
+            if len(a0) == 1 and len(b0) == 1:
+                caseonly += ["[%s%s]" % (a0, b0), "x[%s%s]" % (b0, a0), "[%s%s%s]" % (a0, a0, b0)]
+        exprs += [e for e in caseonly if e not in set(exprs)]
     P = lib.Pair(exprs)
     h, m = P.h, P.m
     rep.evaluations = len(exprs)
